@@ -212,6 +212,10 @@ pub fn run_part<S: System>(ctx: &Ctx, rep: &mut Report, part: &Part<S>) -> Vec<(
         let o = b.run();
         // violations: confirm by identical re-execution, then emit
         for f in &o.violations {
+            if f.v.oracle == "harness-panic" {
+                rep.harness_error = Some(format!("panic inside the machinery in part {}: {} (history {:?})", part.name, f.v.detail, f.hist));
+                continue;
+            }
             let again = b.reexec(f);
             let same = again
                 .iter()
